@@ -12,6 +12,7 @@
 -/
 import IvpModel.Num
 import IvpModel.Model.LU
+import IvpModel.Model.LUF
 import IvpModel.Model.BdfCtl
 import IvpModel.Gen.Common
 
@@ -322,7 +323,7 @@ def solve (L : NLits α) (S : Setup α) (ode jac : Nat → α → Array α → A
         let v := -c * g jm (r * n + cc)
         if r = cc then v + L.one else v
       cnt := { cnt with lu := cnt.lu + 1 }
-      match LU.decomp n n n m with
+      match LUF.decomp n n n m with
       | .ok (a, ip) =>
         lu := a; pivot := ip
         luCurrent := true
@@ -348,7 +349,7 @@ def solve (L : NLits α) (S : Setup α) (ode jac : Nat → α → Array α → A
       nOde := nOde + 1
       cnt := { cnt with ode := cnt.ode + 1 }
       let rhs0 : Array α := (Array.range n).map fun i => c * g fv i - g psi i - g delta i
-      let rhs := LU.solve n lu pivot rhs0
+      let rhs := LUF.solve n lu pivot rhs0
       let dyNorm := weightedRms L rhs scale
       let mut rateCondition := false
       match dyPrev with
